@@ -229,6 +229,7 @@ class WindowedClickThroughRate(
             idx += cur_size
             self.total_updates += metric.total_updates
 
+        self.max_num_updates = merge_max_num_updates
         self.next_inserted = idx
         self.next_inserted %= self.max_num_updates
         return self
